@@ -202,7 +202,11 @@ def check_image(data, model, api_iso, counters):
             sec = sec_of.get(id(en))
             want = 0xef if ex['efi'] else (ex['platform_id'] if ex.get('platform_id') else model.boot['platform_id'])
             if sec is not None and sec.platform_id != want:
-                vio.append({'key': 'entry:platform:section', 'detail': 'section of entry %d platform %#x expected %#x' % (idx, sec.platform_id, want)})
+                # known mechanism: an explicit platform_id of a later add_eltorito is ignored and the
+                # section inherits the platform of the validation entry; anything else is new
+                inherited = (not ex['efi']) and bool(ex.get('platform_id')) and sec.platform_id == model.boot['platform_id']
+                vio.append({'key': 'entry:platform:section' if inherited else 'entry:platform:section:not-inherited',
+                            'detail': 'section of entry %d platform %#x expected %#x (validation entry %#x)' % (idx, sec.platform_id, want, model.boot['platform_id'])})
         # load address = first sector of the boot file bytes
         c = model.contents[ex['cid']]
         content = c.bytes()
